@@ -266,7 +266,8 @@ func builtinList() []string {
 
 var boundaryArgs = []string{"null", "true", "false", "0", "1", "-1", "2", "0.5", "-0.5", "1.5", "nan", "infinite", "-infinite", "536870911", "536870912", "536870913", "9223372036854775807", "9223372036854775808", "-9223372036854775808",
 	"-9223372036854775809", "1e1000", "-1e1000", "1e308", "1e-320", "\"\"", "\"a\"", "\"abc\"", "\"\\u0000\"", "\"é\"", "\"%\"", "\"=\"", "\"[\"", "\"(?<x>\"", "\"g\"", "\"gx\"", "\"%Y\"", "\"%\"", "[]", "[0]", "[1,2]", "[[]]", "[null]", "[\"a\"]", "[[1],[2]]",
-	"[\"a\",0]", "[{}]", "{}", "{\"a\":1}", "{\"start\":0,\"end\":1}", "{\"start\":null}", "{\"start\":\"a\",\"end\":[]}", "{\"a\":{\"b\":2}}", ".", ".[]?", "empty", "error", "(1,2)", "$v", "[$v]", "{a:$v}", "[range(3)]", "\"a\" * 3",
+	"[\"a\",0]", "[{}]", "{}", "{\"a\":1}", "{\"start\":0,\"end\":1}", "{\"start\":null}", "{\"start\":\"a\",\"end\":[]}", "{\"a\":{\"b\":2}}", ".", ".[]?", "empty", "error", "(1,2)", "$v", "[$v]", "{a:$v}", "[range(3)]", "[range(7)]", "[range(8)]", "[range(9)]", "[range(16)]", "[range(17)]", "[range(33)]", "[range(100)]", "[range(9) | . * 1.5]", "[range(9) | tostring]", "[range(9) | [.]]", "[2024,1,29,12,34,56.5,4,59,0]",
+	"[limit(9; repeat(null))]", "[range(257)] | implode", "[range(65)] | map(tostring) | add", "[range(10)] | map({key: tostring, value: .}) | from_entries", "\"a\" * 3",
 	"[limit(3; repeat(\"a\"))]", "{} | .a.b.c", "[.[]?]", "path(..)", "\"\\(1)\"", "@base64 \"x\"", "-.", "(.. | numbers)", "[\"a\",\"b\"] | join(\",\")", "now | floor | . - .", "\"2015-03-05T23:51:47Z\"", "[2015,2,5,23,51,47,4,63]", "1425599507", "-62135596800", "253402300800", "1e18"}
 
 func builtinProgram(t *rapid.T, names []string) string {
